@@ -17,7 +17,8 @@ for d in sorted(glob.glob(os.path.join(V, "seeded", "*"))):
         checks = [meta["property"]] + (["C15"] if name in ("C03-d", "C14-d") else [])
     shutil.rmtree("/tmp/rerun", ignore_errors=True); os.makedirs("/tmp/rerun")
     for f in ("patch.diff", "demo.py", "meta.json"):
-        shutil.copy(os.path.join(d, f), "/tmp/rerun")
+        if os.path.exists(os.path.join(d, f)):
+            shutil.copy(os.path.join(d, f), "/tmp/rerun")
     if name.startswith("control"):
         # control: patch must apply, tests pass, and NO check may fire
         wt = "/tmp/ctrlwt"
